@@ -871,6 +871,102 @@ EXPORT_HISTORY = {
 
 
 # ------------------------------------------------------------------------------
+# R10.11  define before use among the export lines of one text: the shell
+# expands `$Y` in the value of `export X="..$Y.."` when that line runs
+#
+SH_REF_RE = re.compile(r'(?<!\\)\$\{?([A-Za-z_]\w*)')
+EXPORT_LINE_RE = re.compile(r'(?:^|[\s;&|(])export\s+([A-Za-z_]\w*)=')
+
+
+def export_lines_at(prog, f):
+    """[(name, [value exprs], node, path, text of the line)] for the `export
+    X=` lines of the text which f returns; the path orders the lines (see
+    `before`), lines of one piece of text are ordered by their index"""
+    T = TextEval(prog, f)
+    out = []
+    for it, path in T.items():
+        if it.text is None:
+            continue
+        k = 0
+        for i, l in enumerate(it.text.split('\n')):
+            n = len(FMT_RE.findall(l.replace('%%', '')))
+            m = EXPORT_LINE_RE.findall(l)
+            if len(m) == 1:
+                out.append((m[0], list(it.vals[k:k + n]), it.node,
+                            path + (i,), l))
+            k += n
+    if not T.returns:
+        raise AnalysisError('UNRECOGNISED-IDIOM %s: returns no text' % f.where)
+    return out
+
+
+def shell_refs(defs, exprs, params=()):
+    """{shell variable: constant node} for the `$Y` / `${Y}` references in the
+    string constants from which the expressions are computed (locals expanded
+    by their definitions, flow-insensitively: what the value *may* hold)"""
+    out, seen, todo = {}, set(), list(exprs)
+    while todo:
+        e = todo.pop()
+        for n in ast.walk(e):
+            if isinstance(n, ast.Constant) and isinstance(n.value, str):
+                for m in SH_REF_RE.finditer(n.value):
+                    out.setdefault(m.group(1), n)
+            elif isinstance(n, ast.Name) and n.id in defs and \
+                    n.id not in seen and n.id not in params:
+                seen.add(n.id)
+                todo += defs[n.id]
+    return out
+
+
+def r10_11(prog, rep, rid='R10.11'):
+    rep.rule(rid, 'an `export X=` line of the RP environment whose value may '
+             'hold a reference `$Y` to a variable exported by the same text '
+             'comes after the `export Y=` line', minimum=2)
+    # (2 today: RP_TASK_SANDBOX and RP_PROF_TGT hold `$RP_PILOT_SANDBOX/..`)
+    f = prog.method(EXE[0], EXE[1], '_get_rp_env')
+    rep.saw(f)
+    defs = local_defs(f.node)
+    lines = export_lines_at(prog, f)
+    exported = {}
+    for name, vals, node, path, text in lines:
+        exported.setdefault(name, []).append(path)
+    for name, vals, node, path, text in lines:
+        refs = shell_refs(defs, vals, f.params)
+        own = text.split('export', 1)[1].split('=', 1)[1]
+        q = False
+        for i, ch in enumerate(own):
+            # (a reference between single quotes is not expanded)
+            if ch == "'":
+                q = not q
+            m = SH_REF_RE.match(own, i) if ch == '$' and not q else None
+            if m and (i == 0 or own[i - 1] != '\\'):
+                refs.setdefault(m.group(1), node)
+        for y in sorted(refs):
+            if y == name or y not in exported:
+                continue
+            pre = any(before(pb, path) is True for pb in exported[y])
+            post = any(before(path, pb) is True for pb in exported[y])
+            rep.check(pre or not post, rid, f,
+                      'export %s (may hold $%s) follows export %s'
+                      % (name, y, y), construct='export %s<$%s' % (name, y),
+                      message='in %s the line `export %s=` precedes the line '
+                      '`export %s=`, but its value may hold the reference '
+                      '`$%s` (%s): the shell expands it when the export runs, '
+                      'so %s is built from whatever %s was inherited from the '
+                      'caller\'s environment, not from the value this script '
+                      'sets' % (f.qual, name, y, y,
+                                short(refs[y], 50), name, y),
+                      loc=f.loc(node),
+                      history='a rank started in an environment which does '
+                      'not export %s (remote node, launcher which does not '
+                      'forward the agent environment), task sandbox below '
+                      'the pilot sandbox: $%s expands without the prefix '
+                      '(RP_TASK_SANDBOX=/task.000001), `cd $RP_TASK_SANDBOX` '
+                      'and the stdout redirect fail, the executable does not '
+                      'run' % (y, name))
+
+
+# ------------------------------------------------------------------------------
 # R10.2 / R10.4  quoting (taint)
 #
 # tags:  C  the described container itself (list of arguments / env dict)
@@ -1968,16 +2064,247 @@ def rank_case(prog, rep, rid):
                             'inside the rank loop' % f.where)
 
 
+# -- stdout / stderr file names (part of R10.3)
+STD_KEYS = ('stdout_file', 'stdout_file_short', 'stderr_file',
+            'stderr_file_short')
+
+
+def literal_rows(fnode, it, defs, _seen=()):
+    """the element expressions of an iteration over a literal sequence: list
+    or tuple display, zip() of such displays, items() of a dict display, a
+    local which is bound once to one of these; None otherwise"""
+    if isinstance(it, (ast.List, ast.Tuple)):
+        if it.elts and not any(isinstance(e, ast.Starred) for e in it.elts):
+            return list(it.elts)
+        return None
+    if isinstance(it, ast.Name) and it.id not in _seen:
+        vals = defs.get(it.id, [])
+        if len(vals) == 1 and not any(
+                isinstance(c.func, ast.Attribute) and
+                isinstance(c.func.value, ast.Name) and c.func.value.id == it.id
+                for c in calls_in(fnode)):
+            return literal_rows(fnode, vals[0], defs, _seen + (it.id,))
+        return None
+    if isinstance(it, ast.Call) and not it.keywords:
+        name = dotted(it.func)
+        if name in ('list', 'tuple', 'iter') and len(it.args) == 1:
+            return literal_rows(fnode, it.args[0], defs, _seen)
+        if name == 'zip' and it.args:
+            cols = [literal_rows(fnode, a, defs, _seen) for a in it.args]
+            if all(cols) and len({len(c) for c in cols}) == 1:
+                return [ast.Tuple(elts=list(r), ctx=ast.Load())
+                        for r in zip(*cols)]
+            return None
+        if isinstance(it.func, ast.Attribute) and it.func.attr == 'items' \
+                and not it.args and isinstance(it.func.value, ast.Dict) and \
+                it.func.value.keys and None not in it.func.value.keys:
+            d = it.func.value
+            return [ast.Tuple(elts=[k, v], ctx=ast.Load())
+                    for k, v in zip(d.keys, d.values)]
+    return None
+
+
+def bind_target(target, elem):
+    """{name: expr} of one iteration `target = elem`; None if not matched"""
+    if isinstance(target, ast.Name):
+        return {target.id: elem}
+    if isinstance(target, (ast.Tuple, ast.List)) and \
+            isinstance(elem, (ast.Tuple, ast.List)) and \
+            len(target.elts) == len(elem.elts):
+        out = {}
+        for t, e in zip(target.elts, elem.elts):
+            b = bind_target(t, e)
+            if b is None:
+                return None
+            out.update(b)
+        return out
+    return None
+
+
+def unrolled_assigns(fnode, defs):
+    """[(assign statement, {name: expr})]: the assignments of a function, those
+    in the body of a loop over a literal sequence once per element with the
+    loop variables bound to the element"""
+    out = []
+
+    def rec(stmts, env):
+        for s in stmts:
+            if isinstance(s, (ast.FunctionDef, ast.AsyncFunctionDef,
+                              ast.ClassDef)):
+                continue
+            if isinstance(s, ast.For):
+                rows = literal_rows(fnode, s.iter, defs)
+                binds = [bind_target(s.target, e) for e in rows or []]
+                if binds and None not in binds:
+                    for b in binds:
+                        rec(s.body, dict(env, **b))
+                    rec(s.orelse, env)
+                    continue
+            if isinstance(s, ast.Assign):
+                out.append((s, env))
+            for fld in ('body', 'orelse', 'finalbody'):
+                rec(getattr(s, fld, None) or [], env)
+            for h in getattr(s, 'handlers', None) or []:
+                rec(h.body, env)
+            for c in getattr(s, 'cases', None) or []:
+                rec(c.body, env)
+    rec(fnode.body, {})
+    return out
+
+
+def key_text(e, env, defs, _seen=()):
+    """the string a key expression evaluates to (constants, loop variables of
+    an unrolled iteration, locals bound once, `+`, `%`, f-strings, format)"""
+    if isinstance(e, ast.Constant):
+        return e.value if isinstance(e.value, str) else None
+    if isinstance(e, ast.Name):
+        if e.id in _seen:
+            return None
+        if e.id in env:
+            return key_text(env[e.id], env, defs, _seen + (e.id,))
+        vals = defs.get(e.id, [])
+        if len(vals) == 1:
+            return key_text(vals[0], env, defs, _seen + (e.id,))
+        return None
+    if isinstance(e, ast.BinOp) and isinstance(e.op, ast.Add):
+        a = key_text(e.left, env, defs, _seen)
+        b = key_text(e.right, env, defs, _seen)
+        return a + b if a is not None and b is not None else None
+    if isinstance(e, ast.BinOp) and isinstance(e.op, ast.Mod):
+        fmt = key_text(e.left, env, defs, _seen)
+        args = e.right.elts if isinstance(e.right, ast.Tuple) else [e.right]
+        vals = [key_text(a, env, defs, _seen) for a in args]
+        if fmt is None or None in vals or \
+                FMT_RE.sub('', fmt).count('%') or \
+                len(FMT_RE.findall(fmt)) != len(vals) or \
+                any(m != '%s' for m in FMT_RE.findall(fmt)):
+            return None
+        return fmt % tuple(vals)
+    if isinstance(e, ast.JoinedStr):
+        out = ''
+        for v in e.values:
+            if isinstance(v, ast.Constant):
+                out += str(v.value)
+            elif v.format_spec is None and v.conversion == -1:
+                s = key_text(v.value, env, defs, _seen)
+                if s is None:
+                    return None
+                out += s
+            else:
+                return None
+        return out
+    if isinstance(e, ast.Call) and isinstance(e.func, ast.Attribute) and \
+            e.func.attr == 'format' and not e.keywords:
+        fmt = key_text(e.func.value, env, defs, _seen)
+        vals = [key_text(a, env, defs, _seen) for a in e.args]
+        if fmt is None or None in vals or fmt.count('{}') != len(vals) or \
+                fmt.replace('{}', '').count('{') or \
+                fmt.replace('{}', '').count('}'):
+            return None
+        return fmt.format(*vals)
+    return None
+
+
+class CallLeaves(Leaves):
+    """Leaves which looks through calls of helpers defined in the package: the
+    sources of `self._helper(a, b)` are the sources of the helper's return
+    values with its parameters replaced by the sources of the arguments (not
+    simply all arguments).  `tests` collects the tests of those helpers the
+    same way: [(helper, test expr, sources in terms of this function)]"""
+
+    def __init__(self, prog, f, rename=None, depth=0):
+        Leaves.__init__(self, f.node, rename=rename)
+        self.prog, self.f, self.depth = prog, f, depth
+        self.tests = []
+
+    def bound(self, env):
+        """a copy in which the names of env are bound to the given exprs"""
+        other = CallLeaves.__new__(CallLeaves)
+        other.__dict__.update(self.__dict__)
+        other.defs = dict(self.defs)
+        for k, v in env.items():
+            other.defs[k] = [v]
+        other.tests = []
+        return other
+
+    def of(self, expr, seen=frozenset()):
+        if isinstance(expr, ast.Call):
+            got = self.through(expr, seen)
+            if got is not None:
+                return got
+        return Leaves.of(self, expr, seen)
+
+    def through(self, call, seen):
+        if self.depth >= 3:
+            return None
+        fn = call.func
+        if not (isinstance(fn, ast.Name) or (
+                isinstance(fn, ast.Attribute) and
+                isinstance(fn.value, ast.Name) and
+                fn.value.id in ('self', 'cls'))):
+            return None
+        h = self.prog.resolve_call(self.f, call)
+        if h is None or h.node is self.f.node:
+            return None
+        a = h.node.args
+        if a.vararg or a.kwarg or \
+                any(isinstance(x, ast.Starred) for x in call.args) or \
+                any(k.arg is None for k in call.keywords):
+            return None
+        rets = [r.value for r in walk(h.node)
+                if isinstance(r, ast.Return) and r.value is not None]
+        if not rets or any(isinstance(n, (ast.Yield, ast.YieldFrom))
+                           for n in walk(h.node)):
+            return None
+        ps = [x.arg for x in a.posonlyargs + a.args]
+        if isinstance(fn, ast.Attribute) and ps and not is_static(h):
+            ps = ps[1:]
+        if len(call.args) > len(ps):
+            return None
+        bind = dict(zip(ps, call.args))
+        names = set(ps) | {x.arg for x in a.kwonlyargs}
+        for k in call.keywords:
+            if k.arg not in names:
+                return None
+            bind[k.arg] = k.value
+        Lh = CallLeaves(self.prog, h, depth=self.depth + 1)
+
+        def mapped(leaves):
+            out = set()
+            for leaf in leaves:
+                head, _, rest = leaf.partition('/')
+                if head in bind:
+                    for x in self.of(bind[head], seen):
+                        out.add(x + '/' + rest if rest else x)
+                elif head in names:
+                    continue          # the default value: a constant
+                else:
+                    out.add(leaf)
+            return out
+        got = set()
+        for v in rets:
+            got |= mapped(Lh.of(v))
+        tests = []
+        for n in walk(h.node):
+            if isinstance(n, (ast.If, ast.While, ast.IfExp, ast.Assert)):
+                tests.append(n.test)
+            elif isinstance(n, ast.comprehension):
+                tests += n.ifs
+        for t in tests:
+            self.tests.append((h, t, mapped(Lh.of(t))))
+        for hh, t, lv in Lh.tests:
+            self.tests.append((hh, t, mapped(lv)))
+        return got
+
+
 def std_names(prog, rep, rid):
     f = prog.method(POPEN[0], POPEN[1], '_handle_task')
     rep.saw(f)
-    L = Leaves(f.node, rename=task_rename(f))
+    L0 = CallLeaves(prog, f, rename=task_rename(f))
     g = cfg_of(f)
     smap = I.stmt_node_map(g)
-    n = 0
-    for a in walk(f.node):
-        if not isinstance(a, ast.Assign):
-            continue
+    seen = set()
+    for a, env in unrolled_assigns(f.node, L0.defs):
         pairs = []
         for t in a.targets:
             if isinstance(t, ast.Subscript):
@@ -1989,17 +2316,23 @@ def std_names(prog, rep, rid):
                 else:
                     pairs += [(x, a.value) for x in t.elts]
         for t, v in pairs:
-            k = const_key(t) if isinstance(t, ast.Subscript) else None
-            if k not in ('stdout_file_short', 'stderr_file_short',
-                         'stdout_file', 'stderr_file'):
+            k = key_text(t.slice, env, L0.defs) \
+                if isinstance(t, ast.Subscript) else None
+            if k not in STD_KEYS:
                 continue
-            n += 1
+            seen.add(k)
             which = k[:6]
+            L = L0.bound(env)
             got = L.of(v)
             req = 'task/description/%s' % which
             other = 'task/description/%s' % ('stderr' if which == 'stdout'
                                              else 'stdout')
-            rep.check(req in got and other not in got, rid, f,
+            okay = req in got and other not in got
+            if not okay and any(req.startswith(x + '/') for x in got):
+                raise AnalysisError('UNRECOGNISED-IDIOM %s: `%s` is computed '
+                                    'from the task description as a whole (%s)'
+                                    % (f.where, short(a, 50), sorted(got)))
+            rep.check(okay, rid, f,
                       "task['%s'] derives from td['%s']" % (k, which),
                       construct='%s:%s' % (k, which),
                       message="task['%s'] is computed from %s, not from the "
@@ -2009,22 +2342,28 @@ def std_names(prog, rep, rid):
                       'are written to the wrong file')
             # same-variable agreement: which form the name of one stream takes
             # (relative to the sandbox / absolute) is decided by a test on
-            # that name, not on the name of the other stream
+            # that name, not on the name of the other stream - in this
+            # function and in the helpers which compute the value
             node = smap.get(id(a))
             if node is None:
                 raise AnalysisError('UNRECOGNISED-IDIOM %s: statement `%s`'
                                     % (f.where, short(a, 50)))
-            wrong = [g.nodes[tid].ast for tid, lab in guards(g, node.id)
-                     if other in L.of(g.nodes[tid].ast) and
-                     req not in L.of(g.nodes[tid].ast)]
+            tests = [(f, g.nodes[tid].ast, L.of(g.nodes[tid].ast))
+                     for tid, lab in guards(g, node.id)]
+            tests += L.tests
+            wrong = [(h, t) for h, t, lv in tests
+                     if other in lv and req not in lv]
             rep.check(not wrong, rid, f,
                       "task['%s'] is chosen by tests on the %s name only"
                       % (k, which), construct='%s:%s:guard' % (k, which),
-                      message="task['%s'] (`%s`) is set under the test `%s`, "
+                      message="task['%s'] (`%s`) is set under the test `%s`%s, "
                       "which looks at the described %s name, not at the %s "
                       "name: whether the %s file is taken relative to the "
                       "sandbox is decided by the other stream's name"
-                      % (k, short(a, 60), short(wrong[0], 40) if wrong else '',
+                      % (k, short(a, 60),
+                         short(wrong[0][1], 40) if wrong else '',
+                         ' of %s' % wrong[0][0].qual
+                         if wrong and wrong[0][0] is not f else '',
                          'stderr' if which == 'stdout' else 'stdout', which,
                          which), loc=f.loc(a),
                       history="stdout='out.txt' (relative) with stderr="
@@ -2033,9 +2372,10 @@ def std_names(prog, rep, rid):
                       'err.txt` (no such directory: the ranks are not '
                       'started) resp. the stream lands outside of the '
                       'recorded file')
-    if n < 4:
+    if seen != set(STD_KEYS):
         raise AnalysisError('UNRECOGNISED-IDIOM %s: stdout/stderr file names '
-                            'are not set here' % f.where)
+                            'are not set here (%s)' % (
+                                f.where, ', '.join(sorted(set(STD_KEYS) - seen))))
 
 
 # ------------------------------------------------------------------------------
@@ -4320,6 +4660,7 @@ def run(prog, rep, tier):
     rep.attempt(r10_7, prog, rep)
     rep.attempt(r10_9, prog, rep)
     rep.attempt(r10_10, prog, rep, classes)
+    rep.attempt(r10_11, prog, rep)
     if tier == 'thorough':
         # sweep: every launcher class of the package (not only the factory
         # table) and every executor class: argument quoting in get_exec
